@@ -99,6 +99,7 @@ class Scratch:
         self.alive = False
         self.loaded = [None, None]
         self.comp = {}
+        self.dirty_built = set()          # cache files compiled by a process from a table it loaded BEFORE the file was re-written
 
     # ------------------------------------------------------------ running the real code
     def purge(self):
@@ -246,6 +247,8 @@ class Scratch:
                         self.clock += dt
                         self.put(fid(t, 2, fn), self.clock, v)
                         self.put(fid(t, 1, fn), self.clock, v)
+                        for i in (fid(t, 1, fn), fid(t, 2, fn)):
+                            (self.dirty_built.add if v != self.ver[t] else self.dirty_built.discard)(i)
                     self.comp[(t, fn)] = v
                     o["value"] = v
         elif k == "I":
@@ -289,8 +292,19 @@ class Scratch:
                 if o["err"] == 0:
                     st = self.stale()
                     if st:
-                        fails.append(("leftover-after-interrupted-cleanup-and-retry" if prev_crash else "stale-cache-after-import",
-                                      idx, f"stale cache files (fid, mtime, built_from) {st} with table versions {self.ver}"))
+                        # a stale cache that sat beside an OLDER cache of the same table before this import: "remove all on stale"
+                        # must have taken it, whatever its own mtime and however it came to be stale
+                        beside = [f for f in st if any(c[0] % 2 == f[0] % 2 and c[1] < tabs.get(f[0] % 2, -1) for c in caches_before)]
+                        held = [f for f in st if f not in beside and f[0] in self.dirty_built]
+                        if beside:
+                            kind = "stale-cache-kept-beside-older-cache"
+                        elif len(held) == len(st):
+                            # the only way the mtime criterion can miss: every older cache is gone and the stale one was written
+                            # after the table by a process that held the old table in memory
+                            kind = "stale-cache-after-import:process-held-old-table"
+                        else:
+                            kind = "leftover-after-interrupted-cleanup-and-retry" if prev_crash else "stale-cache-after-import"
+                        fails.append((kind, idx, f"stale cache files (fid, mtime, built_from) {st} with table versions {self.ver}"))
                     snap = o.get("submodule_snapshot")
                     now = sorted(x[0] for x in o["files"] if (x[0] // 2) % 3 != 0)
                     if snap is None or snap != now:
@@ -412,7 +426,20 @@ if mode == "lateuse":
         a = d[key].copy(); a.flat[0] = a.flat[0] + 1.0; d[key] = a
         np.savez(os.path.join(geom, t + "_geom.npz"), **d)
         out["bumped"][t] = float(a.flat[0]).hex()
-if mode == "clear":
+if mode == "longlived":
+    # a process that already holds the mdc table: table re-written, caches force-cleared, ANOTHER mdc kernel used for the first time
+    geom = os.path.join(os.path.dirname(p3.__file__), "detectors", "geometry")
+    p3.mdc_gid_to_east_x(np.array([0]))
+    d = dict(np.load(os.path.join(geom, "mdc_geom.npz")))
+    a = d["west_x"].copy(); a.flat[0] = a.flat[0] + 1.0; d["west_x"] = a
+    np.savez(os.path.join(geom, "mdc_geom.npz"), **d)
+    out["bumped"] = float(a.flat[0]).hex()
+    from pybes3._cache_numba import clear_numba_cache
+    clear_numba_cache()
+    out["west_in_process"] = float(p3.mdc_gid_to_west_x(np.array([0]))[0]).hex()
+elif mode == "usew":
+    out["west"] = float(p3.mdc_gid_to_west_x(np.array([0]))[0]).hex()
+elif mode == "clear":
     from pybes3._cache_numba import clear_numba_cache
     clear_numba_cache()
 else:
@@ -532,6 +559,19 @@ def e2e(src, level):
             # F: forced clear
             run("clear")
             expect(caches() == {}, "e2e:forced-clear-leaves-files", f"left after clear_numba_cache(): {sorted(caches())}")
+            # L: the long-lived-process history of the replay, with real numba: the process holds the old mdc table, the table is
+            #    re-written, the caches are force-cleared, another mdc kernel is compiled (from the table in memory); next process
+            run("clear")
+            l1 = run("longlived")
+            l2 = run("usew")
+            if l2["west"] != l1["bumped"]:
+                res["findings"].append({"key": "e2e:process-held-old-table",
+                                        "what": f"a process that had loaded mdc_geom.npz kept running while the table was re-written (west_x[0] -> "
+                                                f"{l1['bumped']}) and the caches were force-cleared; its first use of mdc_gid_to_west_x wrote a cache "
+                                                f"compiled from the table in memory ({l1['west_in_process']}); a fresh interpreter afterwards keeps that "
+                                                f"cache (it is newer than the table) and returns {l2['west']}"})
+            else:
+                res["notes"].append("long-lived process: new value seen")
             # G: numba cache relocated by NUMBA_CACHE_DIR (documented numba setting; the framework itself runs with it)
             nb = root / "nbcache"
             g1 = run("use", cache_dir=nb)
